@@ -106,10 +106,101 @@ def tz_part(ctx: vlib.Ctx):
     ctx.sample({"offset_minutes": -30, "wire": "UTC-00:30"})
 
 
+def roundtrip_part(ctx: vlib.Ctx):
+    """general round trip: Coq theorem over the type-level model + (M) correspondence + direct oracle"""
+    from harness import gen, tycorr, tyoracle
+    from mashumaro.codecs.basic import BasicDecoder, BasicEncoder
+    ctx.theorems("props/C01_roundtrip.vo", ["C01_roundtrip", "C01_roundtrip_codec", "C01_roundtrip_total"])
+    ctx.trusted.append("TyModel.v (cp/pk, cu/uk) tied by vm_compute correspondence; stdlib render/parse pairs are oracle functions whose "
+                       "round-trip law is a hypothesis of the theorem restricted to the values present (atoms_ok)")
+    ctx.assumptions.append("unions are decided under C11; NamedTuple/TypedDict/abstract collections/leaf-typed mapping keys by the oracle only")
+    cases, bad, log = tycorr.run(ctx, "c01_ty", ctx.budget(50, 400), 3, depth=3, foreign=1)
+    hits = tyoracle.report_corr(ctx, "TyModel (pk, uk) vs BasicEncoder/BasicDecoder", cases, bad, log)
+    n = ctx.budget(900, 6000) if not hits else ctx.budget(2500, 12000)
+    for fam, ns, t, ty, sg in tyoracle.schema_stream(ctx.rng, n, literals=True):
+        try:
+            enc = BasicEncoder(ty)
+            dec = BasicDecoder(ty)
+        except Exception as e:
+            ctx.fail(f"codec for {gen.py_ann(t)} cannot be built: {type(e).__name__}: {e}",
+                     {"entry": "codec_build", "source": fam.source(), "type": gen.py_ann(t), "expected": "ok"}, {"kind": "codec-build"})
+            continue
+        vg = gen.ValueGen(ctx.rng, fam)
+        for _ in range(4):
+            v = vg.value(t)
+            ctx.count((t.key(), repr(v)))
+            entries = [("codec_roundtrip", lambda: dec.decode(enc.encode(v)))]
+            if t.kind == "data" and fam.get(t.name).mixin:
+                entries.append(("mixin_roundtrip", lambda: type(v).from_dict(v.to_dict())))
+            for entry, f in entries:
+                try:
+                    back = f()
+                    ok = gen.same(back, v)
+                    obs = "ok:" + gen.py_src(back)
+                except Exception as e:
+                    ok = False
+                    obs = f"exc:{type(e).__name__}"
+                if not ok:
+                    ctx.fail(f"{gen.py_ann(t)}: {entry} of {gen.py_src(v)[:200]} gives {obs[:200]}",
+                             {"entry": entry, "source": fam.source(), "type": gen.py_ann(t), "input_src": gen.py_src(v),
+                              "observed": obs, "expected": "ok:" + gen.py_src(v)}, {"kind": "roundtrip"})
+        for n_ in t.walk():
+            ctx.hist("oracle_type_constructors", n_.kind)
+        fam.dispose()
+
+
+def scenario_part(ctx: vlib.Ctx):
+    """structured families the tree generator does not reach (generic specialisations with permuted / nested /
+    same-named type arguments from different modules, inheritance with overriding)"""
+    from harness import gen, scenarios
+    from mashumaro.codecs.basic import BasicDecoder, BasicEncoder
+    for _ in range(ctx.budget(60, 600)):
+        sc = ctx.rng.choice(scenarios.SCENARIOS)(ctx.rng)
+        ctx.hist("scenarios", sc["name"])
+        try:
+            ns = scenarios.build(sc)
+            ty = eval(sc["type"], dict(ns))
+            entries = []
+            # order of first use is part of the scenario: decoder first or encoder first
+            if ctx.rng.random() < 0.5:
+                dec = BasicDecoder(ty); enc = BasicEncoder(ty)
+            else:
+                enc = BasicEncoder(ty); dec = BasicDecoder(ty)
+            entries.append(("scenario_codec_roundtrip", lambda v: dec.decode(enc.encode(v))))
+            if sc["mixin"]:
+                entries.append(("scenario_mixin_roundtrip", lambda v: type(v).from_dict(v.to_dict())))
+        except Exception as e:
+            ctx.fail(f"scenario {sc['name']} [{sc['shape']}] cannot be built: {type(e).__name__}: {str(e)[:200]}",
+                     {"entry": "scenario_codec_roundtrip", "scenario": sc, "input_src": sc["values"][0], "expected": "ok"},
+                     {"kind": "scenario-build"})
+            scenarios.dispose(sc)
+            continue
+        for vsrc in sc["values"]:
+            v = eval(vsrc, dict(ns))
+            for entry, f in entries:
+                ctx.count((sc["name"], sc["shape"], entry))
+                try:
+                    back = f(v)
+                    ok = gen.same(back, v)
+                    obs = "ok:" + repr(back)
+                except Exception as e:
+                    ok = False
+                    obs = f"exc:{type(e).__name__}: {str(e)[:200]}"
+                if not ok:
+                    ctx.fail(f"scenario {sc['name']} [{sc['shape']}] {entry}: {vsrc[:200]} gives {obs[:300]}",
+                             {"entry": entry, "scenario": sc, "input_src": vsrc, "observed": obs, "expected": "ok:" + repr(v)},
+                             {"kind": "scenario-roundtrip"})
+        scenarios.dispose(sc)
+
+
 def run(ctx: vlib.Ctx):
     ctx.coverage["rule"] = ("timezone leaf: every whole-minute offset in (-24h,24h) (exhaustive, distinct = offsets); "
-                            "general round trip: generated (schema, value) pairs, distinct = distinct schema shapes x value")
+                            "general round trip: schemas from the shared grammar generator (depth<=4, nested/recursive/mixin dataclasses, "
+                            "named tuples, typed dicts, all leaf kinds, enums, collections, Optional, Literal) x edge-biased lossless values; "
+                            "distinct = (type tree, value) pairs")
     tz_part(ctx)
+    roundtrip_part(ctx)
+    scenario_part(ctx)
 
 
 def replay(rep: dict) -> int:
@@ -124,5 +215,21 @@ def replay(rep: dict) -> int:
             return 1
         print("not reproduced")
         return 0
-    print("unknown replay kind")
-    return 2
+    if str(rep.get("entry", "")).startswith("scenario_"):
+        from harness import scenarios
+        return scenarios.replay(rep)
+    if rep.get("entry") == "codec_build":
+        from harness import gen
+        from mashumaro.codecs.basic import BasicDecoder, BasicEncoder
+        ns = gen.build_module(rep["source"])
+        try:
+            ty = eval(rep["type"], dict(ns))
+            BasicEncoder(ty)
+            BasicDecoder(ty)
+            print("builds")
+            return 0
+        except Exception as e:
+            print("REPRODUCED", type(e).__name__, e)
+            return 1
+    from harness import gen
+    return gen.replay_generic(rep)
